@@ -3,9 +3,9 @@
   X(run_LD_none,"LD","none") X(run_LD_int,"LD","int") X(run_LD_unsigned,"LD","unsigned") X(run_LD_double,"LD","double") \
   X(run_LD_char,"LD","char") X(run_LD_string,"LD","string") X(run_LD_struct,"LD","struct") \
   X(run_LD_i8,"LD","i8") X(run_LD_u8,"LD","u8") X(run_LD_i16,"LD","i16") X(run_LD_u16,"LD","u16") \
-  X(run_LD_i64,"LD","i64") X(run_LD_u64,"LD","u64") X(run_LD_float,"LD","float") \
+  X(run_LD_i64,"LD","i64") X(run_LD_u64,"LD","u64") X(run_LD_float,"LD","float") X(run_LD_empty,"LD","empty") \
   X(run_LU_none,"LU","none") X(run_LU_int,"LU","int") X(run_LU_unsigned,"LU","unsigned") X(run_LU_double,"LU","double") \
   X(run_LU_char,"LU","char") X(run_LU_string,"LU","string") X(run_LU_struct,"LU","struct") \
   X(run_LU_i8,"LU","i8") X(run_LU_u8,"LU","u8") X(run_LU_i16,"LU","i16") X(run_LU_u16,"LU","u16") \
-  X(run_LU_i64,"LU","i64") X(run_LU_u64,"LU","u64") X(run_LU_float,"LU","float") \
+  X(run_LU_i64,"LU","i64") X(run_LU_u64,"LU","u64") X(run_LU_float,"LU","float") X(run_LU_empty,"LU","empty") \
   X(run_DM,"DM","none") X(run_UM,"UM","none") X(run_DW,"DW","none") X(run_UW,"UW","none") X(run_STEP,"STEP","none")
